@@ -5,23 +5,29 @@ package c07
 
 import (
 	"bufio"
+	"bytes"
+	"context"
 	"fmt"
 	"strconv"
 	"strings"
 	"sync"
+	"sync/atomic"
 	"testing"
 	"testing/synctest"
+	"time"
 
 	"github.com/plgd-dev/go-coap/v3/message/codes"
 	"github.com/plgd-dev/go-coap/v3/message/pool"
 	"github.com/plgd-dev/go-coap/v3/net/responsewriter"
 	"github.com/plgd-dev/go-coap/v3/options"
 	tcpclient "github.com/plgd-dev/go-coap/v3/tcp/client"
+	tcpcoder "github.com/plgd-dev/go-coap/v3/tcp/coder"
 	"verifharness/internal/lp"
 	"verifharness/internal/mem"
 )
 
 type caseLines struct {
+	ping   bool // cfgping: the connection has a ping of its own outstanding when the stream starts
 	srv    bool // cfgsrv: the connection is the one a tcp.Server creates for an accepted stream, configured through options
 	max    uint32
 	cache  uint16
@@ -46,6 +52,10 @@ func runCase(t *testing.T, c caseLines) []string {
 		var ord []string
 		var sig []string
 		handler := func(_ *responsewriter.ResponseWriter[*tcpclient.Conn], req *pool.Message) {
+			if c.ping {
+				// a handler that takes a moment (virtual time) before it looks at its message: the reader is ahead of it
+				time.Sleep(time.Millisecond)
+			}
 			body := bodyOf(req)
 			mu.Lock()
 			ord = append(ord, fmt.Sprintf("%d %s %d %s", req.Code(), lp.Hex(req.Token()), len(body), lp.Hex64(fnvBytes(body))))
@@ -83,6 +93,19 @@ func runCase(t *testing.T, c caseLines) []string {
 			mu.Unlock()
 		})
 		synctest.Wait()
+		var pingTok []byte
+		if c.ping {
+			// the connection's own ping goes out; the stream of the case starts with a Pong that has an 8-byte placeholder
+			// token (bytes 2..9 of the stream), which is replaced by the token the ping really carries
+			_, _ = cc.AsyncPing(func() {})
+			synctest.Wait()
+			for _, fr := range peer.TakeFrames() {
+				if len(fr) == 10 && fr[0] == 0x08 && fr[1] == 0xe2 {
+					pingTok = fr[2:10]
+				}
+			}
+		}
+		off := 0
 		closed := func() bool {
 			select {
 			case <-cc.Done():
@@ -96,10 +119,23 @@ func runCase(t *testing.T, c caseLines) []string {
 				out[i] = "bad-op"
 				continue
 			}
+			if pingTok != nil {
+				ch = append([]byte(nil), ch...)
+				for k := range ch {
+					if p := off + k; p >= 2 && p < 10 {
+						ch[k] = pingTok[p-2]
+					}
+				}
+			}
+			off += len(ch)
 			if !closed() && len(ch) > 0 {
 				_ = peer.Write(ch)
 			}
 			synctest.Wait()
+			if c.ping {
+				time.Sleep(50 * time.Millisecond) // the slow handlers of everything that was delivered so far
+				synctest.Wait()
+			}
 			mu.Lock()
 			b := &strings.Builder{}
 			fmt.Fprintf(b, "ord %d", len(ord))
@@ -170,7 +206,7 @@ func TestC07(t *testing.T) {
 	err := lp.FileLoop(func(f []string, w *bufio.Writer) {
 		wlast = w
 		switch {
-		case len(f) >= 2 && (f[0] == "cfg" || f[0] == "cfgsrv"):
+		case len(f) >= 2 && (f[0] == "cfg" || f[0] == "cfgsrv" || f[0] == "cfgping"):
 			flush(w)
 			mx, _ := strconv.ParseUint(f[1], 10, 32)
 			cache, queue := uint64(2048), 16
@@ -180,7 +216,7 @@ func TestC07(t *testing.T) {
 			if len(f) >= 4 {
 				queue, _ = strconv.Atoi(f[3])
 			}
-			cur = &caseLines{srv: f[0] == "cfgsrv", max: uint32(mx), cache: uint16(cache), queue: queue}
+			cur = &caseLines{ping: f[0] == "cfgping", srv: f[0] == "cfgsrv", max: uint32(mx), cache: uint16(cache), queue: queue}
 		case len(f) == 2 && f[0] == "chunk" && cur != nil:
 			b, err := lp.ParseHex(f[1])
 			cur.chunks = append(cur.chunks, b)
@@ -194,6 +230,148 @@ func TestC07(t *testing.T) {
 		}
 	})
 	_ = wlast // the input ends with the sentinel line `end`, which flushes the last case
+	if err != nil {
+		t.Fatal(err)
+	}
+}
+
+// ---- the writing direction --------------------------------------------------------------------------------------
+//
+//	wr <seed> <bigBytes> <small> <writers>
+//
+// A real tcp/client.Conn (block-wise off, 1 MiB message size) on which 1 + <writers> goroutines write at the same moment:
+// writer 0 one message with a body of <bigBytes> bytes, every other writer <small> messages with short bodies.  The peer
+// collects the byte stream (reads of at most 64 KiB from a net.Pipe, so a large frame takes several reads) and cuts it into
+// frames with the stream coder.  Output: `sent <d>* | recv <d>* rest <n> err <e>` with d = writer.seq.bodylen.fnv(body); the
+// stream must consist of exactly the sent messages, each complete, those of one writer in the order it wrote them.
+func runWrite(t *testing.T, seed int64, big, small, writers int, real bool) (line string) {
+	defer func() {
+		if p := recover(); p != nil {
+			line = fmt.Sprintf("panic %v", p)
+		}
+	}()
+	body := func() {
+		var peer *mem.TCPPeer
+		// settle: in the bubble, quiescence; in real time, until the peer's collected byte count has not changed for 30 ms
+		settle := func() {
+			if !real {
+				synctest.Wait()
+				return
+			}
+			last, same := -1, 0
+			for i := 0; i < 400 && same < 6; i++ {
+				time.Sleep(5 * time.Millisecond)
+				n := peer.Len()
+				if n == last {
+					same++
+				} else {
+					last, same = n, 0
+				}
+			}
+		}
+		cc, p, err := mem.NewTCPConn(mem.TCPOpts{Mutate: func(cfg *tcpclient.Config) {
+			cfg.MaxMessageSize = 1 << 20
+			cfg.BlockwiseEnable = false
+			cfg.Handler = func(_ *responsewriter.ResponseWriter[*tcpclient.Conn], _ *pool.Message) {}
+		}})
+		if err != nil {
+			line = "conn-error"
+			return
+		}
+		peer = p
+		settle()
+		peer.TakeBytes() // the connection's own CSM
+		mk := func(w, seq, n int) (*pool.Message, string) {
+			body := make([]byte, n)
+			x := uint64(seed)*1000003 + uint64(w)*7919 + uint64(seq)*104729 + 1
+			for i := range body {
+				x = x*6364136223846793005 + 1442695040888963407
+				body[i] = byte(x >> 56)
+			}
+			m := pool.NewMessage(cc.Context())
+			m.SetCode(codes.POST)
+			m.SetToken([]byte{byte(w), byte(seq), byte(seq >> 8)})
+			m.SetBody(bytes.NewReader(body))
+			return m, fmt.Sprintf("%d.%d.%d.%s", w, seq, n, lp.Hex64(fnvBytes(body)))
+		}
+		jobs := make([][]*pool.Message, 1+writers)
+		var sent []string
+		nbig := 1
+		if real {
+			nbig = 4 // real time: the big writer keeps the connection busy for a few frames
+		}
+		for s := 0; s < nbig; s++ {
+			m, d := mk(0, s, big)
+			jobs[0] = append(jobs[0], m)
+			sent = append(sent, d)
+		}
+		for w := 1; w <= writers; w++ {
+			for s := 0; s < small; s++ {
+				m, d := mk(w, s, 1+(w*31+s*7)%40)
+				jobs[w] = append(jobs[w], m)
+				sent = append(sent, d)
+			}
+		}
+		start := make(chan struct{})
+		var wg sync.WaitGroup
+		var werr atomic.Int32
+		for w := range jobs {
+			wg.Add(1)
+			go func(msgs []*pool.Message) {
+				defer wg.Done()
+				<-start
+				for _, m := range msgs {
+					if err := cc.WriteMessage(m); err != nil {
+						werr.Add(1)
+					}
+				}
+			}(jobs[w])
+		}
+		close(start)
+		wg.Wait()
+		settle()
+		frames := peer.TakeFrames()
+		rest := peer.TakeBytes()
+		var recv []string
+		derr := int(werr.Load())
+		for _, f := range frames {
+			rm := pool.NewMessage(context.Background())
+			if _, err := rm.UnmarshalWithDecoder(tcpcoder.DefaultCoder, f); err != nil || len(rm.Token()) != 3 {
+				derr++
+				continue
+			}
+			body := bodyOf(rm)
+			tk := rm.Token()
+			recv = append(recv, fmt.Sprintf("%d.%d.%d.%s", tk[0], int(tk[1])|int(tk[2])<<8, len(body), lp.Hex64(fnvBytes(body))))
+		}
+		line = fmt.Sprintf("sent %s | recv %s rest %d err %d", strings.Join(sent, " "), strings.Join(recv, " "), len(rest), derr)
+		_ = cc.Close()
+		peer.Close()
+		if !real {
+			synctest.Wait()
+		}
+	}
+	if real {
+		body()
+	} else {
+		synctest.Test(t, func(t *testing.T) { body() })
+	}
+	return line
+}
+
+func TestC07Write(t *testing.T) {
+	err := lp.FileLoop(func(f []string, w *bufio.Writer) {
+		if len(f) == 5 && (f[0] == "wr" || f[0] == "wrr") {
+			// wrr: the same in real time (no bubble), four big frames, so that writers really run in parallel
+			seed, _ := strconv.ParseInt(f[1], 10, 64)
+			big, _ := strconv.Atoi(f[2])
+			small, _ := strconv.Atoi(f[3])
+			writers, _ := strconv.Atoi(f[4])
+			fmt.Fprintln(w, runWrite(t, seed, big, small, writers, f[0] == "wrr"))
+			return
+		}
+		fmt.Fprintln(w, "bad-op")
+	})
 	if err != nil {
 		t.Fatal(err)
 	}
